@@ -4,6 +4,8 @@ CONSTANTS
   Ctxs = {"mixin", "fn"}
   CondSet = {}
   MaxConds = 0
+  ElseSet = {}
+  NCondSet = {}
   AVals <- Range2
   BVals <- Range2
   TVals <- Range2
